@@ -1,5 +1,813 @@
 package main
 
-import "verif/report"
+import (
+	"bytes"
+	"encoding/json"
+	"fmt"
+	"math/big"
+	"sort"
+	"strings"
 
-func c16() *report.Check { return &report.Check{Level: "model_checking", Run: func(c *report.Ctx) {}} }
+	"github.com/ethereum/go-ethereum/common"
+	"github.com/ethereum/go-ethereum/crypto"
+	"github.com/jackc/pgx/v4/minipg"
+
+	"verif/harness/fakechain"
+	"verif/harness/syncx"
+	"verif/maporder"
+	"verif/report"
+)
+
+// C16 — an event trigger fires iff a matching log occurs in time, whatever the
+// batching.
+//
+// The real MultiEventSyncer with the real EventTriggerRegisteredEventProcessor
+// and TriggerProcessor runs over fakechain + minipg. A chain carries one or two
+// trigger registrations (definition bytes from the real MarshalBytes) and logs
+// that do / do not match, at every offset relative to the registration block
+// and the expiry block (expiry = registration block + ttl, what the registry
+// contract puts into the event). For every chain EVERY composition of the head
+// sequence 1..L into Sync calls is executed (depth-first with database
+// snapshots, so common prefixes are run once) for MaxRequestBlockRange in
+// {1,2,3,L}; the fork family syncs a trunk, switches to a side branch (first
+// head = synced+1) and finishes there.
+//
+// Oracle (property statement) after EVERY Sync call whose position is on the
+// canonical chain: rows of fired_triggers = { trigger registered on the
+// canonical chain up to the position : a canonical log up to the position
+// matches its definition, lies in a block after the registration block and not
+// after the expiry block, and the trigger is not decrypted }, at most one row per
+// trigger, and the row names a qualifying log. Because the reference does not
+// depend on the batching, equality for every composition is independence of
+// the batching.
+//
+// Known defect D7 is recognised from the failing case itself: a trigger is
+// missing although it should have fired, and for every qualifying log the range
+// in which that log's block was (last) processed also contained the
+// registration block. Everything else gets another signature.
+const (
+	sigD7 = "C16/registration-and-matching-log-in-one-sync-range"
+)
+
+type c16Item struct {
+	Type    string `json:"type"`              // "reg" | "log"
+	Side    string `json:"side"`              // "trunk" | "fork" (heights <= fork point are always trunk)
+	Height  int    `json:"height"`            //
+	Trigger int    `json:"trigger,omitempty"` // reg: trigger number
+	TTL     int    `json:"ttl,omitempty"`     // reg: expiry = height + ttl
+	Data    bool   `json:"data_predicate,omitempty"`
+	Kind    string `json:"kind,omitempty"`  // log: match | wrong-topic | wrong-address | low-data
+	First   bool   `json:"first,omitempty"` // log: emitted before the registrations of its block
+}
+
+type c16Spec struct {
+	Name       string    `json:"name"`
+	L          int       `json:"length"`
+	ForkAt     int       `json:"fork_at,omitempty"` // 0 = no fork; side branch = ForkAt+1 .. L+1
+	ReorgDepth int       `json:"assumed_reorg_depth,omitempty"`
+	Items      []c16Item `json:"items"`
+}
+
+type c16Step struct {
+	Side    string `json:"side,omitempty"`
+	Height  int    `json:"height,omitempty"`
+	Decrypt int    `json:"mark_decrypted,omitempty"` // instead of a Sync: mark this trigger decrypted (the keyper's own query)
+}
+
+type c16Replay struct {
+	Spec     c16Spec   `json:"chain"`
+	MaxRange uint64    `json:"max_request_block_range"`
+	Order    int       `json:"processor_order"`
+	Steps    []c16Step `json:"steps"`
+}
+
+var (
+	c16Sig      = crypto.Keccak256Hash([]byte("Ping(uint256)"))
+	c16OtherSig = crypto.Keccak256Hash([]byte("Pong(uint256)"))
+)
+
+type c16Trig struct {
+	n      int
+	ev     *syncx.Event
+	data   bool
+	reg    fakechain.BlockID
+	r, e   uint64
+	ident  string
+	logIdx int
+}
+
+type c16Log struct {
+	blk  fakechain.BlockID
+	idx  int
+	kind string
+}
+
+type c16World struct {
+	spec  c16Spec
+	chain *fakechain.Chain
+	ids   map[string]map[int]fakechain.BlockID
+	trigs []*c16Trig
+	logs  []c16Log
+	env   *syncx.Env
+}
+
+func c16TriggerEvent(n int, data bool, expiry uint64) *syncx.Event {
+	var min *big.Int
+	if data {
+		min = big.NewInt(100)
+	}
+	return &syncx.Event{
+		Kind: syncx.Multi, Name: fmt.Sprintf("trigger%d", n), Eon: 1,
+		Prefix: [32]byte{0xC0, byte(n)}, Sender: common.BytesToAddress([]byte{0x5e, byte(n)}),
+		Definition: syncx.TriggerDefinition(syncx.TargetAddr, c16Sig, min), DefinitionValid: true, Expiration: expiry,
+	}
+}
+
+func c16LogSpec(kind string) fakechain.LogSpec {
+	word := func(v int64) []byte { return common.LeftPadBytes(big.NewInt(v).Bytes(), 32) }
+	switch kind {
+	case "match":
+		return fakechain.LogSpec{Address: syncx.TargetAddr, Topics: []common.Hash{c16Sig}, Data: word(150)}
+	case "wrong-topic":
+		return fakechain.LogSpec{Address: syncx.TargetAddr, Topics: []common.Hash{c16OtherSig}, Data: word(150)}
+	case "wrong-address":
+		return fakechain.LogSpec{Address: syncx.OtherAddr, Topics: []common.Hash{c16Sig}, Data: word(150)}
+	case "low-data":
+		return fakechain.LogSpec{Address: syncx.TargetAddr, Topics: []common.Hash{c16Sig}, Data: word(50)}
+	}
+	panic("unknown log kind " + kind)
+}
+
+// matches is the reference matching predicate for the generated logs and definitions.
+func (t *c16Trig) matches(kind string) bool {
+	switch kind {
+	case "match":
+		return true
+	case "low-data":
+		return !t.data
+	}
+	return false
+}
+
+func newC16World(spec c16Spec, maxRange uint64) *c16World {
+	w := &c16World{spec: spec, ids: map[string]map[int]fakechain.BlockID{"trunk": {0: 0}, "fork": {}}}
+	w.chain = fakechain.New(syncx.GenesisTime)
+	build := func(side string, h int, parent fakechain.BlockID) fakechain.BlockID {
+		var first, regs, rest []c16Item
+		for _, it := range spec.Items {
+			if it.Height != h || it.Side != side {
+				continue
+			}
+			switch {
+			case it.Type == "reg":
+				regs = append(regs, it)
+			case it.First:
+				first = append(first, it)
+			default:
+				rest = append(rest, it)
+			}
+		}
+		order := append(append(first, regs...), rest...)
+		var logs []fakechain.LogSpec
+		var trigs []*c16Trig
+		for i, it := range order {
+			if it.Type == "reg" {
+				t := &c16Trig{n: it.Trigger, data: it.Data, r: uint64(h), e: uint64(h + it.TTL), logIdx: i}
+				t.ev = c16TriggerEvent(it.Trigger, it.Data, t.e)
+				t.ident = "0x" + common.Bytes2Hex(t.ev.Identity())
+				logs = append(logs, t.ev.Log())
+				trigs = append(trigs, t)
+			} else {
+				logs = append(logs, c16LogSpec(it.Kind))
+			}
+		}
+		id := w.chain.AddBlock(parent, side, logs...)
+		for _, t := range trigs {
+			t.reg = id
+			w.trigs = append(w.trigs, t)
+		}
+		for i, it := range order {
+			if it.Type == "log" {
+				w.logs = append(w.logs, c16Log{blk: id, idx: i, kind: it.Kind})
+			}
+		}
+		w.ids[side][h] = id
+		return id
+	}
+	p := fakechain.BlockID(0)
+	for h := 1; h <= spec.L; h++ {
+		p = build("trunk", h, p)
+	}
+	if spec.ForkAt > 0 {
+		p = w.ids["trunk"][spec.ForkAt]
+		for h := spec.ForkAt + 1; h <= spec.L+1; h++ {
+			p = build("fork", h, p)
+		}
+	}
+	w.env = syncx.NewEnv(syncx.Multi, w.chain, syncx.Options{Start: 0, MaxRequestBlockRange: maxRange, AssumedReorgDepth: spec.ReorgDepth})
+	return w
+}
+
+func (w *c16World) close() { w.chain.Close() }
+
+type c16Range struct{ lo, hi uint64 }
+
+// c16Hist is the part of the run history the classification needs.
+type c16Hist struct {
+	ranges    []c16Range   // processed ranges, in order
+	decrypted map[int]uint64 // triggers marked decrypted by the harness -> sync position at that moment
+}
+
+func (h c16Hist) clone() c16Hist {
+	n := c16Hist{ranges: append([]c16Range(nil), h.ranges...), decrypted: map[int]uint64{}}
+	for k, v := range h.decrypted {
+		n.decrypted[k] = v
+	}
+	return n
+}
+
+// lastRange returns the last processed range that contains block m.
+func (h c16Hist) lastRange(m uint64) (c16Range, bool) {
+	for i := len(h.ranges) - 1; i >= 0; i-- {
+		if h.ranges[i].lo <= m && m <= h.ranges[i].hi {
+			return h.ranges[i], true
+		}
+	}
+	return c16Range{}, false
+}
+
+// sync runs one Sync call to the block (side, height) and records the ranges
+// that were committed.
+func (w *c16World) sync(side string, height int, hist *c16Hist) syncx.StepResult {
+	id, ok := w.ids[side][height]
+	if !ok {
+		panic(fmt.Sprintf("c16: no block %s@%d", side, height))
+	}
+	prev := syncx.ReadStatus(w.env.DB, syncx.Multi)
+	return w.env.Step(id, syncx.Fault{}, false, func(d *minipg.DB) {
+		st := syncx.ReadStatus(d, syncx.Multi)
+		if st.Present && len(st.Hash) > 0 && (!prev.Present || st.Number != prev.Number || !bytes.Equal(st.Hash, prev.Hash)) {
+			lo := uint64(0)
+			if prev.Present {
+				lo = uint64(prev.Number + 1)
+			}
+			hist.ranges = append(hist.ranges, c16Range{lo, uint64(st.Number)})
+		}
+		prev = st
+	})
+}
+
+// judge evaluates the oracle on the committed database against the current
+// canonical chain; nil if the position is not on the canonical chain or
+// everything is as the statement demands.
+func (w *c16World) judge(hist c16Hist) (*finding, string) {
+	d := w.env.DB
+	st := syncx.ReadStatus(d, syncx.Multi)
+	if !st.Present {
+		return nil, "no-position"
+	}
+	cb := w.chain.Canonical(uint64(st.Number))
+	if cb == nil || !bytes.Equal(cb.Hash[:], st.Hash) {
+		return nil, "position-off-canonical"
+	}
+	pos := uint64(st.Number)
+	onCanon := func(id fakechain.BlockID) bool {
+		b := w.chain.Block(id)
+		c := w.chain.Canonical(b.Number)
+		return c != nil && c.ID == id && b.Number <= pos
+	}
+	// reference
+	type ref struct {
+		t    *c16Trig
+		qual []c16Log // qualifying logs
+	}
+	refs := map[string]*ref{}
+	for _, t := range w.trigs {
+		if !onCanon(t.reg) {
+			continue
+		}
+		r := &ref{t: t}
+		for _, l := range w.logs {
+			if !onCanon(l.blk) || !t.matches(l.kind) {
+				continue
+			}
+			m := w.chain.Block(l.blk).Number
+			if m > t.r && m <= t.e {
+				r.qual = append(r.qual, l)
+			}
+		}
+		refs[t.ident] = r
+	}
+	rows := syncx.ReadRows(d, "fired_triggers")
+	fired := map[string][]syncx.Row{}
+	for _, r := range rows {
+		fired[r["identity"]] = append(fired[r["identity"]], r)
+	}
+	var sigs, lines []string
+	add := func(sig, line string) {
+		for _, s := range sigs {
+			if s == sig {
+				sig = ""
+			}
+		}
+		if sig != "" {
+			sigs = append(sigs, sig)
+		}
+		lines = append(lines, "  "+line)
+	}
+	nFired, nD7 := 0, 0
+	for ident, rs := range fired {
+		nFired++
+		if len(rs) > 1 {
+			add("C16/fired-twice", fmt.Sprintf("%d rows for trigger %s", len(rs), ident))
+		}
+		row := rs[0]
+		r := refs[ident]
+		if r == nil {
+			add("C16/fired-trigger-not-registered-on-canonical-chain", fmt.Sprintf("fired row for %s, but no such registration on the canonical chain up to %d", ident, pos))
+			continue
+		}
+		t := r.t
+		// which log does the row name?
+		var named *c16Log
+		hb := common.HexToHash(row["block_hash"])
+		for i := range w.logs {
+			l := &w.logs[i]
+			if w.chain.Block(l.blk).Hash == hb && fmt.Sprint(l.idx) == row["log_index"] {
+				named = l
+			}
+		}
+		desc := fmt.Sprintf("trigger %d (registered in block %d, expiry %d) has a fired row naming the log (block %s, hash %s.., index %s)", t.n, t.r, t.e, row["block_number"], row["block_hash"][:10], row["log_index"])
+		switch {
+		case named == nil:
+			add("C16/fired-row-names-unknown-log", desc+": no such log in the tree")
+		case !onCanon(named.blk):
+			add("C16/fired-row-survives-abandoned-block", desc+": that block is not on the canonical chain")
+		case !t.matches(named.kind):
+			add("C16/fired-on-non-matching-log", desc+": the log ("+named.kind+") does not match the definition")
+		case w.chain.Block(named.blk).Number <= t.r:
+			add("C16/fired-at-or-before-registration-block", desc+": not after the registration block")
+		case w.chain.Block(named.blk).Number > t.e:
+			add("C16/fired-after-expiry", desc+": after the expiry block")
+		default:
+			if at, dec := hist.decrypted[t.n]; dec && w.chain.Block(named.blk).Number > at {
+				add("C16/fired-although-decrypted", desc+fmt.Sprintf(": the trigger had been marked decrypted when the position was %d", at))
+			}
+		}
+	}
+	for ident, r := range refs {
+		if len(r.qual) == 0 || len(fired[ident]) > 0 {
+			continue
+		}
+		if _, dec := hist.decrypted[r.t.n]; dec {
+			continue // decrypted before it could fire: must not fire
+		}
+		// should have fired. Is it the known defect?
+		d7 := true
+		var where []string
+		for _, l := range r.qual {
+			m := w.chain.Block(l.blk).Number
+			rg, ok := hist.lastRange(m)
+			if !ok || rg.lo > r.t.r {
+				d7 = false
+			}
+			where = append(where, fmt.Sprintf("log in block %d processed in range [%d,%d]", m, rg.lo, rg.hi))
+		}
+		line := fmt.Sprintf("trigger %d (registered in block %d, expiry %d) has not fired although a matching log lies in (%d, %d]: %s", r.t.n, r.t.r, r.t.e, r.t.r, r.t.e, strings.Join(where, "; "))
+		if d7 {
+			nD7++
+			add(sigD7, line+" - registration and log were fetched in the same range, before the registration was stored")
+		} else {
+			add("C16/not-fired-although-registration-and-log-in-different-ranges", line)
+		}
+	}
+	class := fmt.Sprintf("fired=%d", nFired)
+	if nD7 > 0 {
+		class += fmt.Sprintf("/missed-in-one-range=%d", nD7)
+	}
+	if len(sigs) == 0 {
+		return nil, class
+	}
+	sort.Strings(sigs)
+	sig := sigs[0]
+	if len(sigs) > 1 {
+		// the known class must not hide anything else
+		var other []string
+		for _, s := range sigs {
+			if s != sigD7 {
+				other = append(other, strings.TrimPrefix(s, "C16/"))
+			}
+		}
+		sig = "C16/" + strings.Join(other, "+")
+	}
+	return &finding{sig: sig, msg: fmt.Sprintf("position (%d, %x..) on the canonical chain (head %d), fired_triggers deviates from the reference:\n%s", pos, st.Hash[:4], w.chain.Head().Number, strings.Join(lines, "\n"))}, class
+}
+
+// markDecrypted runs the keyper's own UPDATE for the trigger.
+func (w *c16World) markDecrypted(n int, hist *c16Hist) {
+	for _, t := range w.trigs {
+		if t.n == n {
+			_, err := w.env.DB.Exec(`UPDATE event_trigger_registered_event SET decrypted = TRUE WHERE (eon, identity) IN (SELECT UNNEST($1::bigint[]), UNNEST($2::bytea[]))`,
+				[]int64{int64(t.ev.Eon)}, [][]byte{t.ev.Identity()})
+			if err != nil {
+				panic(err)
+			}
+		}
+	}
+	st := syncx.ReadStatus(w.env.DB, syncx.Multi)
+	hist.decrypted[n] = uint64(st.Number)
+}
+
+func replayC16(rp c16Replay) *finding {
+	setProcessorOrder(rp.Order)
+	w := newC16World(rp.Spec, rp.MaxRange)
+	defer w.close()
+	hist := c16Hist{decrypted: map[int]uint64{}}
+	for i, st := range rp.Steps {
+		if st.Decrypt != 0 {
+			w.markDecrypted(st.Decrypt, &hist)
+			continue
+		}
+		w.sync(st.Side, st.Height, &hist)
+		if f, _ := w.judge(hist); f != nil {
+			return &finding{sig: f.sig, msg: fmt.Sprintf("after step %d of %d (Sync to %s@%d): %s", i+1, len(rp.Steps), st.Side, st.Height, f.msg)}
+		}
+	}
+	return nil
+}
+
+func c16() *report.Check {
+	return &report.Check{
+		Level: "model_checking",
+		Rule: "per chain (registrations x logs at every offset to registration and expiry, optional fork): every composition of the head sequence into Sync calls x " +
+			"MaxRequestBlockRange in {1,2,3,L}, executed depth-first on database snapshots; oracle after every Sync call = reference fired set computed from the chain only",
+		Assumptions: []string{
+			"A-HEAD: the canonical branch only changes between Sync calls",
+			"A-ISO: one database session at a time; PostgreSQL semantics as implemented by minipg",
+			"expiry block = registration block + ttl (ShutterEventTriggerRegistryV1.register emits block.number + ttl)",
+			"fork family: AssumedReorgDepth is set to 3 on the MultiEventSyncer (exported field) so that partial rollbacks happen on chains of length 6..8; the first head on the new branch is synced+1",
+			"SyncStartBlockNumber = 0 and block 0 is empty, so the start-block question of C15 does not interfere",
+		},
+		Shards: func(thorough bool) int { return 16 },
+		Budget: minutes(1.4, 20),
+		Run:    runC16,
+		Replay: func(c *report.Ctx, raw json.RawMessage) string {
+			var rp c16Replay
+			if err := json.Unmarshal(raw, &rp); err != nil {
+				return ""
+			}
+			if f := replayC16(rp); f != nil {
+				return f.sig + "\n" + f.msg
+			}
+			return ""
+		},
+		Trivial: func(class string) bool { return class == "fired=0" },
+	}
+}
+
+// ---------- enumeration ----------
+
+func c16Chains(thorough bool) []c16Spec {
+	L := 6
+	if thorough {
+		L = 8
+	}
+	var out []c16Spec
+	ttls := []int{0, 1, 2, L}
+	if thorough {
+		ttls = []int{0, 1, 2, 3, L}
+	}
+	reg := func(n, h, ttl int, data bool) c16Item {
+		return c16Item{Type: "reg", Side: "trunk", Height: h, Trigger: n, TTL: ttl, Data: data}
+	}
+	lg := func(h int, kind string, first bool) c16Item {
+		return c16Item{Type: "log", Side: "trunk", Height: h, Kind: kind, First: first}
+	}
+	name := func(items []c16Item) string {
+		var p []string
+		for _, it := range items {
+			if it.Type == "reg" {
+				s := fmt.Sprintf("reg%d@%d+%d", it.Trigger, it.Height, it.TTL)
+				if it.Data {
+					s += "d"
+				}
+				p = append(p, s)
+			} else {
+				s := fmt.Sprintf("%s@%s%d", it.Kind, map[string]string{"trunk": "", "fork": "f"}[it.Side], it.Height)
+				if it.First {
+					s += "^"
+				}
+				p = append(p, s)
+			}
+		}
+		return strings.Join(p, ",")
+	}
+	emit := func(items ...c16Item) {
+		out = append(out, c16Spec{Name: fmt.Sprintf("L%d:%s", L, name(items)), L: L, Items: items})
+	}
+	// one trigger
+	for r := 1; r <= L; r++ {
+		for _, ttl := range ttls {
+			for _, data := range []bool{false, true} {
+				t := reg(1, r, ttl, data)
+				for b := 1; b <= L; b++ {
+					kinds := []string{"match", "low-data"}
+					if !data {
+						kinds = []string{"match", "wrong-topic", "wrong-address"}
+					}
+					for _, k := range kinds {
+						emit(t, lg(b, k, false))
+						if b == r {
+							emit(t, lg(b, k, true)) // same block, emitted before the registration
+						}
+					}
+				}
+				if data {
+					continue
+				}
+				// two matching logs (fires at most once), also in one block
+				for b1 := 1; b1 <= L; b1++ {
+					for b2 := b1; b2 <= L; b2++ {
+						emit(t, lg(b1, "match", false), lg(b2, "match", false))
+					}
+				}
+				// a decoy before the matching log
+				for b := 2; b <= L; b++ {
+					emit(t, lg(b-1, "wrong-topic", false), lg(b, "match", false))
+				}
+			}
+		}
+	}
+	// two triggers, one matching log (the second one also with a data predicate and a log that only matches the first)
+	ttl2 := []int{1, L}
+	for r1 := 1; r1 <= L; r1++ {
+		for _, t1 := range ttls {
+			for r2 := 1; r2 <= L; r2++ {
+				for _, t2 := range ttl2 {
+					for b := 2; b <= L; b++ {
+						if b <= r1 && b <= r2 {
+							continue // neither can fire: covered by the one-trigger family
+						}
+						emit(reg(1, r1, t1, false), reg(2, r2, t2, false), lg(b, "match", false))
+						if thorough || (r1+r2+b)%3 == 0 {
+							emit(reg(1, r1, t1, false), reg(2, r2, t2, true), lg(b, "low-data", false))
+						}
+					}
+				}
+			}
+		}
+	}
+	return out
+}
+
+// c16ForkChains: trunk 1..L, side branch F+1..L+1; the trunk is synced to p in
+// (F, F+3], then the branch is shown.
+func c16ForkChains(thorough bool) []c16Spec {
+	L := 6
+	if thorough {
+		L = 8
+	}
+	var out []c16Spec
+	for F := 1; F <= L-1; F++ {
+		type place struct {
+			side string
+			h    int
+		}
+		var regs, logs []place
+		for h := 1; h <= F; h++ {
+			regs = append(regs, place{"trunk", h})
+			logs = append(logs, place{"trunk", h})
+		}
+		for h := F + 1; h <= L; h++ {
+			regs = append(regs, place{"trunk", h}, place{"fork", h})
+			logs = append(logs, place{"trunk", h}, place{"fork", h})
+		}
+		logs = append(logs, place{"fork", L + 1})
+		for _, rp := range regs {
+			for _, ttl := range []int{1, 2, L} {
+				for _, lp := range logs {
+					if lp.h < rp.h {
+						continue
+					}
+					items := []c16Item{
+						{Type: "reg", Side: rp.side, Height: rp.h, Trigger: 1, TTL: ttl},
+						{Type: "log", Side: lp.side, Height: lp.h, Kind: "match"},
+					}
+					out = append(out, c16Spec{Name: fmt.Sprintf("L%d/F%d:reg@%s%d+%d,match@%s%d", L, F, rp.side, rp.h, ttl, lp.side, lp.h), L: L, ForkAt: F, ReorgDepth: 3, Items: items})
+					// the log on both sides at the same height
+					if lp.side == "trunk" && lp.h > F {
+						it2 := append(append([]c16Item{}, items...), c16Item{Type: "log", Side: "fork", Height: lp.h, Kind: "match"})
+						out = append(out, c16Spec{Name: fmt.Sprintf("L%d/F%d:reg@%s%d+%d,match@both%d", L, F, rp.side, rp.h, ttl, lp.h), L: L, ForkAt: F, ReorgDepth: 3, Items: it2})
+					}
+					// the registration on both sides (same trigger re-registered on the other branch)
+					if rp.side == "trunk" && rp.h > F {
+						it3 := append(append([]c16Item{}, items...), c16Item{Type: "reg", Side: "fork", Height: rp.h + 1, Trigger: 1, TTL: ttl})
+						if rp.h+1 <= L {
+							out = append(out, c16Spec{Name: fmt.Sprintf("L%d/F%d:reg@trunk%d+fork%d+%d,match@%s%d", L, F, rp.h, rp.h+1, ttl, lp.side, lp.h), L: L, ForkAt: F, ReorgDepth: 3, Items: it3})
+						}
+					}
+				}
+			}
+		}
+	}
+	return out
+}
+
+type c16Runner struct {
+	c        *report.Ctx
+	w        *c16World
+	spec     c16Spec
+	maxRange uint64
+	order    int
+	seen     map[string]bool
+	finals   map[string]bool
+	reported map[string]bool
+}
+
+func (r *c16Runner) report(f *finding, steps []c16Step) {
+	rp := c16Replay{Spec: r.spec, MaxRange: r.maxRange, Order: r.order, Steps: append([]c16Step(nil), steps...)}
+	if !r.reported[f.sig] {
+		r.reported[f.sig] = true
+		for i := 0; i < 5; i++ {
+			g := replayC16(rp)
+			if g == nil || g.sig != f.sig {
+				panic(fmt.Sprintf("C16 harness nondeterminism: violation %s does not reproduce on replay %d (%v)\n%s", f.sig, i, g, f.msg))
+			}
+		}
+		setProcessorOrder(r.order)
+	}
+	b, _ := json.Marshal(steps)
+	r.c.Violation(f.sig, fmt.Sprintf("%s\nchain %s, MaxRequestBlockRange %d, steps %s", f.msg, r.spec.Name, r.maxRange, b), rp)
+}
+
+// after is called after every Sync call.
+func (r *c16Runner) after(hist c16Hist, steps []c16Step, final bool) bool {
+	c := r.c
+	c.Stats.Evaluations++
+	c.Stats.Transitions++
+	dump := r.w.env.DB.Dump("multi_event_sync_status", "event_trigger_registered_event", "fired_triggers")
+	if !r.seen[dump] {
+		r.seen[dump] = true
+		c.Stats.States++
+	}
+	f, class := r.w.judge(hist)
+	if final {
+		c.Stats.Traces++
+		c.Stats.Class(class)
+		r.finals[r.w.env.DB.Dump("fired_triggers")] = true
+	}
+	if f != nil {
+		r.report(f, steps)
+		if f.sig != sigD7 {
+			return false
+		}
+	}
+	return true
+}
+
+// linear explores every composition of pos+1..L from the current database state.
+func (r *c16Runner) linear(side string, pos, last int, snap *minipg.Snapshot, hist c16Hist, steps []c16Step) {
+	for h := pos + 1; h <= last; h++ {
+		if r.c.Expired() {
+			return
+		}
+		r.w.env.DB.Restore(snap)
+		hh := hist.clone()
+		res := r.w.sync(side, h, &hh)
+		if res.Err != nil {
+			r.c.Stats.Class("sync-error-without-injected-fault")
+			r.c.Stats.SetExtra("sync_error_without_fault_sample", fmt.Sprintf("%v (chain %s)", res.Err, r.spec.Name))
+		}
+		st := append(append([]c16Step(nil), steps...), c16Step{Side: side, Height: h})
+		if !r.after(hh, st, h == last) {
+			continue
+		}
+		if h < last {
+			r.linear(side, h, last, r.w.env.DB.Snapshot(), hh, st)
+		}
+	}
+}
+
+func runC16(c *report.Ctx) {
+	chains := c16Chains(c.Thorough)
+	forks := c16ForkChains(c.Thorough)
+	type job struct {
+		spec c16Spec
+		fork bool
+	}
+	var jobs []job
+	for _, s := range chains {
+		jobs = append(jobs, job{s, false})
+	}
+	for _, s := range forks {
+		jobs = append(jobs, job{s, true})
+	}
+	reported := map[string]bool{}
+	done, mine := 0, 0
+	sampled := 0
+	for ji, j := range jobs {
+		if ji%c.NShards != c.Shard {
+			continue
+		}
+		mine++
+		if c.Expired() {
+			continue
+		}
+		L := j.spec.L
+		outcomes := map[string]bool{}
+		for _, mr := range []uint64{1, 2, 3, uint64(L)} {
+			order := (ji + int(mr)) % 2
+			setProcessorOrder(order)
+			w := newC16World(j.spec, mr)
+			r := &c16Runner{c: c, w: w, spec: j.spec, maxRange: mr, order: order, seen: map[string]bool{}, finals: outcomes, reported: reported}
+			hist := c16Hist{decrypted: map[int]uint64{}}
+			if !j.fork {
+				r.linear("trunk", 0, L, w.env.DB.Snapshot(), hist, nil)
+			} else {
+				F := j.spec.ForkAt
+				init := w.env.DB.Snapshot()
+				for p := F + 1; p <= F+3 && p <= L; p++ {
+					// two batchings of the trunk part: one call, block by block
+					for variant := 0; variant < 2; variant++ {
+						w.env.DB.Restore(init)
+						fresh := w
+						hh := hist.clone()
+						var steps []c16Step
+						ok := true
+						heads := []int{p}
+						if variant == 1 {
+							heads = nil
+							for h := 1; h <= p; h++ {
+								heads = append(heads, h)
+							}
+						}
+						for _, h := range heads {
+							fresh.sync("trunk", h, &hh)
+							steps = append(steps, c16Step{Side: "trunk", Height: h})
+							if !r.after(hh, steps, false) {
+								ok = false
+								break
+							}
+						}
+						if ok {
+							// the new branch: first head synced+1, then every composition of the rest
+							fresh.sync("fork", p+1, &hh)
+							steps = append(steps, c16Step{Side: "fork", Height: p + 1})
+							if r.after(hh, steps, p+1 == L+1) && p+1 < L+1 {
+								r.linear("fork", p+1, L+1, fresh.env.DB.Snapshot(), hh, steps)
+							}
+						}
+					}
+				}
+			}
+			w.close()
+		}
+		// the decrypted-before-the-log family: registration synced, trigger marked
+		// decrypted by the keyper's own query, then the rest in one call
+		if !j.fork && len(j.spec.Items) == 2 && j.spec.Items[0].Type == "reg" && j.spec.Items[1].Kind == "match" && j.spec.Items[1].Height > j.spec.Items[0].Height {
+			for _, mr := range []uint64{1, uint64(L)} {
+				setProcessorOrder(0)
+				w := newC16World(j.spec, mr)
+				r := &c16Runner{c: c, w: w, spec: j.spec, maxRange: mr, seen: map[string]bool{}, finals: map[string]bool{}, reported: reported}
+				hist := c16Hist{decrypted: map[int]uint64{}}
+				reg := j.spec.Items[0].Height
+				steps := []c16Step{{Side: "trunk", Height: reg}}
+				w.sync("trunk", reg, &hist)
+				if r.after(hist, steps, false) {
+					w.markDecrypted(1, &hist)
+					steps = append(steps, c16Step{Decrypt: 1})
+					w.sync("trunk", L, &hist)
+					steps = append(steps, c16Step{Side: "trunk", Height: L})
+					f, _ := w.judge(hist)
+					c.Stats.Evaluations++
+					if f != nil {
+						r.report(f, steps)
+					} else {
+						c.Stats.Class(fmt.Sprintf("decrypted-before-log:fired=%d", len(syncx.ReadRows(w.env.DB, "fired_triggers"))))
+					}
+				}
+				w.close()
+			}
+		}
+		c.Stats.Class(fmt.Sprintf("distinct-final-fired-sets-over-all-batchings=%d", len(outcomes)))
+		if len(outcomes) > 1 && sampled < 2 {
+			sampled++
+			c.Stats.Sample(map[string]any{"chain": j.spec, "distinct_final_fired_sets_over_all_batchings": len(outcomes)})
+		}
+		if !c.Expired() {
+			done++
+			if done == 1 {
+				c.Stats.Sample(map[string]any{"chain": j.spec, "compositions_per_range_limit": 1 << uint(L-1), "range_limits": []int{1, 2, 3, L}})
+			}
+		}
+	}
+	c.Stats.Count("chains_completed", int64(done))
+	c.Stats.Count("chains_total", int64(mine))
+	if done < mine {
+		c.Stats.Cap(fmt.Sprintf("time budget: shard %d completed %d of its %d chains", c.Shard, done, mine))
+	}
+	c.Stats.Count("map_order_seam_ranges", maporder.Ranges)
+	if c.Shard == 0 {
+		c.Stats.SetExtra("engine_conformance_tests", engineConformanceTests)
+	}
+}
